@@ -166,3 +166,60 @@ func bigRingPartners() []*shp {
 	}
 	return out
 }
+
+// slantPairs: right triangles whose hypotenuse has coordinate differences
+// with large odd factors (11, 21, 25, 49, 55 ...), paired with shapes that
+// touch the hypotenuse exactly at its interior lattice points: a point, a
+// line ending there, a rectangle with a corner there, a small triangle with
+// a vertex there. On-edge detection is where a reformulated kernel rounds
+// differently; small lattices (differences <= 9) cannot show it.
+func slantPairs() (tris []*shp, pairs [][2]*shp) {
+	dims := [][2]int64{{22, 22}, {55, 11}, {42, 14}, {49, 49}, {25, 25}, {33, 11}, {44, 33}, {21, 35}, {57, 19}}
+	gcd := func(a, b int64) int64 {
+		for b != 0 {
+			a, b = b, a%b
+		}
+		return a
+	}
+	for _, d := range dims {
+		dx, dy := d[0], d[1]
+		for variant := 0; variant < 4; variant++ {
+			// the four placements: hypotenuse from the origin, mirrored in x, in y, in both
+			sx, sy := int64(1), int64(1)
+			if variant&1 != 0 {
+				sx = -1
+			}
+			if variant&2 != 0 {
+				sy = -1
+			}
+			P := func(x, y int64) exact.P { return exact.P{X: sx * x, Y: sy * y} }
+			ring := []exact.P{P(0, 0), P(dx, dy), P(dx, 0), P(0, 0)}
+			T := mkShp(&exact.Shape{Kind: exact.KPoly, Ext: ring}, idxCfgs[2].Opts)
+			T.tag = "slant"
+			tris = append(tris, T)
+			g := gcd(dx, dy)
+			for k := int64(1); k < g; k++ {
+				px, py := dx/g*k, dy/g*k
+				p := P(px, py)
+				in := P(dx-1, 1) // strictly inside near the right angle (dx, dy >= 11)
+				add := func(e *exact.Shape) { pairs = append(pairs, [2]*shp{T, mkShp(e, idxCfgs[1].Opts)}) }
+				add(&exact.Shape{Kind: exact.KPoint, Pt: p})
+				add(&exact.Shape{Kind: exact.KLine, Line: []exact.P{p, in}})
+				add(&exact.Shape{Kind: exact.KLine, Line: []exact.P{in, p, P(dx, 0)}})
+				a, b := P(px, 0), P(dx, py)
+				add(&exact.Shape{Kind: exact.KRect, Min: exact.P{X: min(a.X, b.X), Y: min(a.Y, b.Y)}, Max: exact.P{X: max(a.X, b.X), Y: max(a.Y, b.Y)}})
+				tri := []exact.P{p, in, P(dx, 0), p}
+				if exact.Simple(tri) {
+					add(&exact.Shape{Kind: exact.KPoly, Ext: tri})
+				}
+				// a triangle touching the hypotenuse from outside at p
+				out := []exact.P{p, P(px-3, py+5), P(px-6, py+4), p}
+				if exact.Simple(out) {
+					add(&exact.Shape{Kind: exact.KPoly, Ext: out})
+				}
+				add(&exact.Shape{Kind: exact.KLine, Line: []exact.P{p, P(px-3, py+5)}})
+			}
+		}
+	}
+	return
+}
